@@ -153,8 +153,14 @@ def batch(arg):
                         # another element of the same array was written
                         # earlier in the region
                         mech = "written_first.partial_array"
-                    elif c.idx == () and cond_write_fact(body[i:j + 1],
-                                                         c.name):
+                    elif cond_write_fact(body[i:j + 1], c.name) and (
+                            c.idx == () or not any(
+                                w.name == c.name
+                                for w in rep["written"].values())):
+                        # the first (syntactic) access is an assignment inside
+                        # an IF block or a DO loop that did not execute on
+                        # this input (scalar, or an array none of whose
+                        # elements has been written yet)
                         mech = "written_first.conditional"
                     part.violation({
                         "kind": "upward_exposed_read_not_in_inputs",
